@@ -154,8 +154,22 @@ func (k *kindActor) Receive(c *actor.Context) {
 	case actor.Stopped:
 		k.nd.spawns["stopped:"+k.id]++
 		simrt.Ev("node%d stopped %s", k.nd.n, k.id)
+	case busyMsg:
+		// keeps the actor inside Receive while more arrives behind it
+		simrt.Sleep(50 * time.Millisecond)
+	case boomMsg:
+		if k.nd.spawns["boomed:"+k.id] == 0 {
+			k.nd.spawns["boomed:"+k.id]++
+			simrt.Fault("actor-crash-in-Receive")
+			simrt.ScriptedPanic("scripted crash of " + k.id)
+		}
 	}
 }
+
+// busyMsg and boomMsg are local messages for activated actors: busy keeps the
+// actor in Receive for 50 simulated ms, boom makes it panic (once per id).
+type busyMsg struct{}
+type boomMsg struct{}
 
 func member(nd *node) *hcluster.Member {
 	return &hcluster.Member{ID: nd.id, Host: nd.addr, Kinds: append([]string{}, nd.kinds...), Region: "default"}
@@ -270,13 +284,24 @@ func runMembership(rc *core.RunCtx) {
 	burst := g.Bool(0.4) // send all snapshots without waiting, with concurrent readers
 	preActivate := g.Bool(0.4)
 	rc.Scen("burst=%v activation-before-later-snapshots=%v", burst, preActivate)
-	mk := func(snap []int) []*hcluster.Member {
-		var ms []*hcluster.Member
+	// the member lists as the provider sends them; now and then a member (not
+	// the observer) is listed under another address than before: same id, same
+	// member
+	lists := make([][]*hcluster.Member, len(snaps))
+	for j, snap := range snaps {
 		for _, i := range snap {
 			u := uni[i]
-			ms = append(ms, &hcluster.Member{ID: u.id, Host: u.host, Kinds: append([]string{}, u.kinds...), Region: "default"})
+			host := u.host
+			if i > 0 && g.Bool(0.12) {
+				host = fmt.Sprintf("10.9.1.%d:1", i)
+				rc.Scen("snapshot %d lists %s under %s", j, u.id, host)
+			}
+			lists[j] = append(lists[j], &hcluster.Member{ID: u.id, Host: host, Kinds: append([]string{}, u.kinds...), Region: "default"})
 		}
-		return ms
+	}
+	if g.Bool(0.3) {
+		// the monitor is subscribed a second time through another PID object
+		self.c.Engine().Subscribe(actor.NewPID(self.c.Engine().Address(), "monitor/m"))
 	}
 	// model
 	view := map[string]bool{}
@@ -328,8 +353,8 @@ func runMembership(rc *core.RunCtx) {
 		}
 	}
 	if !burst {
-		for j, snap := range snaps {
-			e.Send(self.c.PID(), &hcluster.Members{Members: mk(snap)})
+		for j := range snaps {
+			e.Send(self.c.PID(), &hcluster.Members{Members: lists[j]})
 			simrt.WaitQuiet(10 * time.Second)
 			check(j, "quiescent")
 			if j == 0 && preActivate {
@@ -357,8 +382,8 @@ func runMembership(rc *core.RunCtx) {
 			})
 		}
 		simrt.GoNode(1, "provider", func() {
-			for _, snap := range snaps {
-				e.Send(self.c.PID(), &hcluster.Members{Members: mk(snap)})
+			for j := range snaps {
+				e.Send(self.c.PID(), &hcluster.Members{Members: lists[j]})
 			}
 		})
 		simrt.WaitQuiet(10 * time.Second)
